@@ -7,6 +7,12 @@ limb recomposition  W*(p div W) + (p mod W) == p  is plain linear arithmetic.
 Every term carries an interval; intervals can be refined per path (Ctx.refine).
 """
 import math
+import sys
+
+try:
+    sys.set_int_max_str_digits(0)
+except AttributeError:
+    pass
 
 _intern = {}
 _next_uid = [1]
@@ -254,6 +260,10 @@ def divc(a, c):
     alo, ahi = iv(a)
     if alo is not None and ahi is not None and alo // c == ahi // c:
         return alo // c
+    if alo is not None and ahi is not None and alo // c + 1 == ahi // c and len(a.terms) > 1:
+        # the value crosses exactly one multiple of c: a case split is friendlier to the solvers than a div atom
+        q = alo // c
+        return ite(lt(a, c * (q + 1)), q, q + 1)
     res = _divc(a, c)
     return _with_hint(res, (None if alo is None else alo // c, None if ahi is None else ahi // c))
 
@@ -308,6 +318,9 @@ def modc(a, c):
     alo, ahi = iv(a)
     if alo is not None and ahi is not None and alo // c == ahi // c:
         return sub(a, (alo // c) * c)
+    if alo is not None and ahi is not None and alo // c + 1 == ahi // c and len(a.terms) > 1:
+        q = alo // c
+        return ite(lt(a, c * (q + 1)), sub(a, c * q), sub(a, c * (q + 1)))
     A, B = _split(a, c)
     lo, hi = iv(B)
     if lo is not None and hi is not None and lo // c == hi // c:
@@ -388,6 +401,20 @@ def le0(d):
             return band(eq0(x), eq0(y))
         if k == -1 and d.c == 1:
             return bnot(band(eq0(x), eq0(y)))
+    if len(d.terms) == 1 and d.terms[0][0].op == 'blen' and abs(d.terms[0][1]) == 1:
+        k = d.terms[0][1]
+        x = d.terms[0][0].args[0]
+        if k == 1:
+            # blen(x) <= -c  <=>  x < 2^(-c)
+            n = -d.c
+            if n < 0:
+                return False
+            return le0(add(x, 1 - (1 << n)))
+        # -blen(x) + c <= 0  <=>  blen(x) >= c  <=>  x >= 2^(c-1)
+        n = d.c
+        if n <= 0:
+            return True
+        return le0(sub((1 << (n - 1)), x))
     lo, hi = iv(d)
     if hi is not None and hi <= 0:
         return True
@@ -552,6 +579,18 @@ def ite(c, a, b):
     return atom_lin(Atom('ite', (c, a, b), lo, hi, ('ite', c.uid, ua, ub)))
 
 
+def blen(x):
+    """bit length of a non-negative value, kept lazy: it is almost always only compared with a constant"""
+    if isinstance(x, int):
+        return x.bit_length()
+    lo, hi = iv(x)
+    l0 = max(lo or 0, 0).bit_length()
+    l1 = None if hi is None else hi.bit_length()
+    if l1 is not None and l0 == l1:
+        return l0
+    return atom_lin(Atom('blen', (x,), l0, l1, ('blen', x.uid)))
+
+
 def b2i(b):
     if isinstance(b, bool):
         return 1 if b else 0
@@ -574,19 +613,33 @@ def wrap(t, bits, signed):
     return modc(t, m)
 
 
-def low_zero_bits(t):
-    """number of low bits known to be zero (for non-negative t)"""
-    if isinstance(t, int):
-        if t == 0:
-            return 1 << 30
-        return (t & -t).bit_length() - 1
-    g = t.c
-    for _, k in t.terms:
-        g = math.gcd(g, k)
-    g = abs(g)
-    if g == 0:
+def _tz(k):
+    k = abs(k)
+    if k == 0:
         return 1 << 30
-    return (g & -g).bit_length() - 1
+    return (k & -k).bit_length() - 1
+
+
+def _atom_lzb(a, depth=0):
+    if depth > 6:
+        return 0
+    if a.op == 'ite':
+        return min(low_zero_bits(a.args[1], depth + 1), low_zero_bits(a.args[2], depth + 1))
+    if a.op == 'mul':
+        return low_zero_bits(a.args[0], depth + 1) + low_zero_bits(a.args[1], depth + 1)
+    return 0
+
+
+def low_zero_bits(t, depth=0):
+    """number of low bits known to be zero (for non-negative t): every summand is a multiple of 2^result"""
+    if isinstance(t, int):
+        return _tz(t)
+    r = _tz(t.c)
+    for a, k in t.terms:
+        r = min(r, _tz(k) + _atom_lzb(a, depth))
+        if r == 0:
+            break
+    return r
 
 
 def maybe_mask(t, bits=64):
@@ -718,6 +771,8 @@ def eval_atom(a, model, memo):
         v = 0 if d == 0 else eval_int(a.args[0], model, memo) // d
     elif a.op == 'bor':
         v = eval_int(a.args[0], model, memo) | eval_int(a.args[1], model, memo)
+    elif a.op == 'blen':
+        v = max(eval_int(a.args[0], model, memo), 0).bit_length()
     else:
         raise ValueError(a.op)
     memo[a.uid] = v
